@@ -31,6 +31,10 @@ class NohBlackBoxEos(ExactSolver):
 
         def __init__(self, equation_of_state, initial_conditions = {'density': 1, 'velocity': -1, 'pressure': 0, 'symmetry': 2}, **kwargs): # EoS object (as of now) is designed to be object from the eos_library.py file.
             super(NohBlackBoxEos, self).__init__(**kwargs)
+            # per-instance state: neither the caller's (or the default) dictionary
+            # nor the Newton solver may be shared between solver objects
+            initial_conditions = dict(initial_conditions)
+            self.solver = newton_solver()
             self.eos = equation_of_state
             self.symmetry = initial_conditions['symmetry']
             self.initial_conditions =initial_conditions # Maybe refactor this later so users can change initial conditions. For now focus on black box eos interaction.
@@ -97,23 +101,23 @@ class NohBlackBoxEos(ExactSolver):
 
 
 class PlanarNohBlackBox(NohBlackBoxEos):
-    def __init__(self,equation_of_state, initial_conditions = {'density': 1, 'velocity': -1, 'pressure': 0}):
-        initial_conditions['symmetry'] = 0
-        super().__init__(equation_of_state, initial_conditions)
+    def __init__(self,equation_of_state, initial_conditions = {'density': 1, 'velocity': -1, 'pressure': 0}, **kwargs):
+        initial_conditions = dict(initial_conditions, symmetry=0)
+        super().__init__(equation_of_state, initial_conditions, **kwargs)
     parameters = NohBlackBoxEos.parameters
     geometry = 1
 
 class CylindricalNohBlackBox(NohBlackBoxEos):
-    def __init__(self, equation_of_state, initial_conditions = {'density': 1, 'velocity': -1, 'pressure': 0}):
-        initial_conditions['symmetry'] = 1
-        super().__init__(equation_of_state, initial_conditions)
+    def __init__(self, equation_of_state, initial_conditions = {'density': 1, 'velocity': -1, 'pressure': 0}, **kwargs):
+        initial_conditions = dict(initial_conditions, symmetry=1)
+        super().__init__(equation_of_state, initial_conditions, **kwargs)
     parameters = NohBlackBoxEos.parameters
     geometry = 2
 
 class SphericalNohBlackBox(NohBlackBoxEos):
-    def __init__(self, equation_of_state, initial_conditions = {'density': 1, 'velocity': -1, 'pressure': 0}):
-        initial_conditions['symmetry'] = 2
-        super().__init__(equation_of_state, initial_conditions)
+    def __init__(self, equation_of_state, initial_conditions = {'density': 1, 'velocity': -1, 'pressure': 0}, **kwargs):
+        initial_conditions = dict(initial_conditions, symmetry=2)
+        super().__init__(equation_of_state, initial_conditions, **kwargs)
     parameters = NohBlackBoxEos.parameters
     geometry = 3
 
